@@ -21,6 +21,8 @@ import (
 // the same client by independent sender threads; every connection Write is a scheduling point.
 // Harness B (correlation): two clients in the real connection loop, each issuing requests whose
 // replies and broadcasts cross.
+// Harness C (login under load): a client logs in and sends its first request without waiting for the
+// login reply (in the same segment or the next), while a 40,000-byte broadcast to everybody is in flight.
 
 func init() {
 	register(&Prop{
@@ -37,17 +39,19 @@ func init() {
 		Run:            runC14,
 		Replay:         replayC14,
 		MinOutcomes:    2,
-		QuickBudget:    100 * time.Second,
+		QuickBudget:    300 * time.Second,
 		ThoroughBudget: 25 * time.Minute,
 	})
 }
 
 type c14Params struct {
 	Harness string `json:"h"`
-	Sizes   []int  `json:"sizes,omitempty"` // harness A: data sizes of the transactions for client 1 (client 2 gets one small one)
-	Reqs    []int  `json:"reqs,omitempty"`  // harness B: request kinds
-	Solo    bool   `json:"solo,omitempty"`  // harness B baseline: client a issues Reqs alone
-	Wrap    bool   `json:"wrap,omitempty"`  // harness B: the second client connects after the 16-bit id counter has wrapped
+	Sizes   []int  `json:"sizes,omitempty"`  // harness A: data sizes of the transactions for client 1 (client 2 gets one small one)
+	Reqs    []int  `json:"reqs,omitempty"`   // harness B: request kinds
+	Solo    bool   `json:"solo,omitempty"`   // harness B baseline: client a issues Reqs alone
+	Wrap    bool   `json:"wrap,omitempty"`   // harness B: the second client connects after the 16-bit id counter has wrapped
+	Follow  int    `json:"follow,omitempty"` // harness C: data size of the request the new client sends right behind its login (0: a user-list request)
+	Joined  bool   `json:"joined,omitempty"` // harness C: login and follow-up request arrive in one segment
 }
 
 // c14Answered[kind] = the request kind gets a reply when issued alone (measured by a baseline
@@ -74,6 +78,9 @@ func (p c14Params) String() string { b, _ := json.Marshal(p); return string(b) }
 func c14Body(p c14Params) func() explore.SchedOutcome {
 	if p.Harness == "A" {
 		return func() explore.SchedOutcome { return c14A(p) }
+	}
+	if p.Harness == "C" {
+		return func() explore.SchedOutcome { return c14C(p) }
 	}
 	return func() explore.SchedOutcome { return c14B(p) }
 }
@@ -294,6 +301,87 @@ func c14B(p c14Params) (out explore.SchedOutcome) {
 	return out
 }
 
+// Harness C (login under load): a new client logs in, and sends its first request without waiting for
+// the login reply, while a logged-in user broadcasts a message of more than 32 KiB to everybody.
+func c14C(p c14Params) (out explore.SchedOutcome) {
+	vrt.BeginSetup()
+	w := world.New(world.Cfg{Accounts: []world.Acct{{Login: "guest", Name: "Guest", Access: world.AllAccess}}})
+	defer w.Close()
+	a, ra := w.Connect("10.0.0.1:1001", "guest", "", "alice")
+	if ra == nil {
+		out.Violations = append(out.Violations, explore.SchedV{Signature: "C14/C/setup-login-failed", Detail: "login got no reply"})
+		return out
+	}
+	a.New()
+	c := w.Dial("10.0.0.3:1003")
+	c.Name = "carol"
+	vrt.EndSetup()
+
+	login := world.LoginTx("guest", "", ref.FS(ref.FUserName, "carol"), ref.F16(ref.FUserIconID, 1))
+	login.ID = 0x30001
+	follow := ref.Tx{Type: ref.TGetUserNameList, ID: 0x30002}
+	if p.Follow > 0 {
+		follow = ref.Tx{Type: ref.TSendInstantMsg, ID: 0x30002, Fields: []ref.Fld{ref.F16(ref.FUserID, 1), ref.F(ref.FData, pattern(p.Follow, 3)), ref.F16(ref.FOptions, 1)}}
+	}
+	vrt.GoNamed("client-carol", func() {
+		c.Handshake()
+		if p.Joined {
+			c.Conn.Feed(append(login.Encode(), follow.Encode()...))
+		} else {
+			c.Send(login)
+			c.Send(follow)
+		}
+	})
+	vrt.GoNamed("client-alice", func() {
+		a.Send(ref.Tx{Type: ref.TUserBroadcast, Fields: []ref.Fld{ref.F(ref.FData, pattern(40000, 9))}})
+	})
+	vrt.WaitQuiet()
+
+	var obs []string
+	for _, cl := range []*world.Client{a, c} {
+		cl.Poll()
+		if cl.ParseErr != nil || len(cl.Unparsed()) != 0 {
+			out.Violations = append(out.Violations, explore.SchedV{
+				Signature: "C14/C/framing/stream-not-a-concatenation-of-whole-transactions",
+				Detail:    fmt.Sprintf("%s params=%s: err=%v trailing=%d chunks=%v", cl.Name, p, cl.ParseErr, len(cl.Unparsed()), chunkSizes(cl.Conn)),
+			})
+			continue
+		}
+		news := cl.New()
+		if cl == c {
+			replies := map[uint32]int{}
+			for _, t := range news {
+				if t.IsReply == 1 {
+					replies[t.ID]++
+				}
+			}
+			for id, n := range replies {
+				if id != login.ID && id != follow.ID {
+					out.Violations = append(out.Violations, explore.SchedV{Signature: "C14/C/correlation/reply-with-foreign-id", Detail: fmt.Sprintf("carol params=%s got reply id %x it never used", p, id)})
+				}
+				if n > 1 {
+					out.Violations = append(out.Violations, explore.SchedV{Signature: "C14/C/correlation/duplicate-reply", Detail: fmt.Sprintf("carol params=%s got %d replies to id %x", p, n, id)})
+				}
+			}
+			if replies[login.ID] == 0 {
+				out.Violations = append(out.Violations, explore.SchedV{Signature: "C14/C/correlation/missing-reply/login", Detail: fmt.Sprintf("carol params=%s", p)})
+			}
+			if replies[follow.ID] == 0 {
+				out.Violations = append(out.Violations, explore.SchedV{Signature: "C14/C/correlation/missing-reply/request-sent-behind-the-login", Detail: fmt.Sprintf("carol params=%s: the request is answered when it is sent after the login reply arrived", p)})
+			}
+		}
+		obs = append(obs, cl.Name+":"+ref.CanonMultiset(news)+fmt.Sprint(chunkSizes(cl.Conn)))
+	}
+	if wd := vrt.Wedged(); len(wd) > 0 {
+		out.Violations = append(out.Violations, explore.SchedV{Signature: "C14/C/deadlock", Detail: strings.Join(wd, ", ")})
+	}
+	for _, pn := range vrt.S.Panics() {
+		out.Violations = append(out.Violations, explore.SchedV{Signature: "C14/C/panic/" + vrt.PanicSite(pn), Detail: pn})
+	}
+	out.Canon = strings.Join(obs, " | ")
+	return out
+}
+
 func runC14(w *explore.Worker) {
 	type job struct {
 		p     c14Params
@@ -335,6 +423,16 @@ func runC14(w *explore.Worker) {
 		jobs = append(jobs, job{c14Params{Harness: "B", Reqs: r}, boundB})
 	}
 	jobs = append(jobs, job{c14Params{Harness: "B", Reqs: []int{c14KeepAlive, c14UserList, c14PM, c14KeepAlive}, Wrap: true}, 0})
+	// harness C: login under load
+	for _, f := range []int{0, 6000} {
+		for _, j := range []bool{false, true} {
+			b := boundB
+			if f == 0 && j {
+				b++ // the smallest configuration is explored one deviation deeper
+			}
+			jobs = append(jobs, job{c14Params{Harness: "C", Follow: f, Joined: j}, b})
+		}
+	}
 	maxBound := 0
 	c14Baseline(w)
 	for _, j := range jobs {
